@@ -739,7 +739,7 @@ Fixpoint slots_raw (c : cfg) (n : nat) (m : mem) : list (option (option N)) :=
   end.
 Definition vec_raw (c : cfg) (v : vec) : option (list (option (option N))) :=
   match vbk v with
-  | BHeap | BReloc =>
+  | BHeap | BReloc _ =>
       if (2 <=? c_sz c) && (vcap v <=? 600) then Some (slots_raw c (N.to_nat (vcap v)) (vmem v)) else None
   | _ => None
   end.
